@@ -2,7 +2,7 @@
 """Run every kept seeded change (seeded/<id>/patch.diff) against the check of its property on a scratch copy of
 /repo/src (never touches /repo) and write seeded/RESULTS.json + seeded/RESULTS.md.
 
-usage: tools/mutation_matrix.py [-j N] [ids...]"""
+usage: tools/mutation_matrix.py [--dir seeded|neutral] [-j N] [ids...]   (neutral/ holds behaviour-preserving refactorings: expected exit 0, never 1)"""
 import concurrent.futures as cf
 import json
 import os
@@ -15,12 +15,15 @@ import tempfile
 HERE = os.path.dirname(os.path.dirname(os.path.abspath(__file__)))
 
 
+DIR = "seeded"
+
+
 def run_one(mid):
     prop = mid.split("_")[0]
     d = tempfile.mkdtemp(prefix="mm_", dir="/tmp")
     try:
         shutil.copytree("/repo/src", d + "/src")
-        p = subprocess.run(["patch", "-p1", "-s", "-i", f"{HERE}/seeded/{mid}/patch.diff"], cwd=d, capture_output=True, text=True)
+        p = subprocess.run(["patch", "-p1", "-s", "-i", f"{HERE}/{DIR}/{mid}/patch.diff"], cwd=d, capture_output=True, text=True)
         if p.returncode:
             return mid, {"error": "patch does not apply: " + p.stderr[:200]}
         env = dict(os.environ, PYVC_SRC=d + "/src", PYVC_EVIDENCE_DIR=f".run/evidence_mut/{mid}", PYVC_REPLAY_DIR=f".run/replays_mut/{mid}")
@@ -42,20 +45,23 @@ def run_one(mid):
 
 
 def main():
+    global DIR
     args = sys.argv[1:]
     j = 6
+    if args[:1] == ["--dir"]:
+        DIR = args[1]; args = args[2:]
     if args[:1] == ["-j"]:
         j = int(args[1]); args = args[2:]
-    ids = args or sorted(x for x in os.listdir(f"{HERE}/seeded") if os.path.isfile(f"{HERE}/seeded/{x}/patch.diff"))
-    path = f"{HERE}/seeded/RESULTS.json"
+    ids = args or sorted(x for x in os.listdir(f"{HERE}/{DIR}") if os.path.isfile(f"{HERE}/{DIR}/{x}/patch.diff"))
+    path = f"{HERE}/{DIR}/RESULTS.json"
     res = json.load(open(path)) if os.path.exists(path) else {}
     with cf.ThreadPoolExecutor(j) as ex:
         for mid, r in ex.map(run_one, ids):
             res[mid] = r
             print(mid, json.dumps(r)[:300], flush=True)
     json.dump(dict(sorted(res.items())), open(path, "w"), indent=1)
-    with open(f"{HERE}/seeded/RESULTS.md", "w") as f:
-        f.write("| seeded change | check exit | failed deductive obligations | stand-in alarms | undecided | out of reach | first failing obligation / tag |\n|---|---|---|---|---|---|---|\n")
+    with open(f"{HERE}/{DIR}/RESULTS.md", "w") as f:
+        f.write("| change | check exit | failed deductive obligations | stand-in alarms | undecided | out of reach | first failing obligation / tag |\n|---|---|---|---|---|---|---|\n")
         for mid, r in sorted(res.items()):
             if "error" in r:
                 f.write(f"| {mid} | - | - | - | - | - | {r['error']} |\n")
